@@ -219,8 +219,6 @@ fn delta_for_tx(
     };
 
     let mut new_share_balance = pre_tx_status.share_balance;
-    let mut new_all_affiliates_share_balance =
-        pre_tx_status.all_affiliate_share_balance;
     let mut new_acb_total = pre_tx_status.total_acb;
 
     let mut capital_gains: Option<Decimal> = None;
@@ -233,8 +231,6 @@ fn delta_for_tx(
         crate::portfolio::TxActionSpecifics::Buy(buy_specs) => {
             new_share_balance =
                 pre_tx_status.share_balance + buy_specs.shares.into();
-            new_all_affiliates_share_balance =
-                pre_tx_status.all_affiliate_share_balance + buy_specs.shares.into();
             if let Some(old_acb) = pre_tx_status.total_acb {
                 let total_price = total_local_share_value(
                     buy_specs.shares,
@@ -257,7 +253,7 @@ fn delta_for_tx(
                     tx.trade_date, sell_specs.shares, tx.security,
                     pre_tx_status.share_balance)
                 })?;
-            new_all_affiliates_share_balance = GreaterEqualZeroDecimal::try_from(
+            GreaterEqualZeroDecimal::try_from(
                 *pre_tx_status.all_affiliate_share_balance - *sell_specs.shares,
             )
             .map_err(|_| {
@@ -361,19 +357,6 @@ fn delta_for_tx(
         crate::portfolio::TxActionSpecifics::Split(split_specs) => {
             new_share_balance = pre_tx_status.share_balance
                 * split_specs.ratio.pre_to_post_factor().into();
-            let share_diff = *new_share_balance - *pre_tx_status.share_balance;
-            // This erroring would be strange in practice. Only if the share balance
-            // was already broken.
-            new_all_affiliates_share_balance = GreaterEqualZeroDecimal::try_from(
-                *new_all_affiliates_share_balance + share_diff,
-            )
-            .map_err(|_| {
-                format!(
-                    "Stock split on {} caused all-affiliate share \
-                                      balance to become negative",
-                    tx.trade_date
-                )
-            })?;
 
             // In a reverse split, the user is usually required to add a Sell Tx just
             // before the split, if shares are non-fractional, which is most of the
@@ -398,6 +381,11 @@ fn delta_for_tx(
             // though?
         }
     }
+
+    // Re-summed from the affiliates' own balances (see the doc of
+    // all_affiliates_share_balance_with for why this is not done incrementally).
+    let new_all_affiliates_share_balance =
+        ptf_statuses.all_affiliates_share_balance_with(&tx.affiliate, new_share_balance);
 
     let new_status = PortfolioSecurityStatus {
         security: pre_tx_status.security.clone(),
